@@ -15,6 +15,9 @@ Normal forms applied at construction (each is a bit-vector / ring identity):
 """
 ENABLED = False
 INVERSES = {}     # opaque function name -> name of its declared inverse (same first argument)
+BITCANON = False  # operands of non-affine operators are first put into bit-level canonical form (bitform.recanon)
+_STRUCTURAL = {'id', 'BitXor', 'Not', 'zext', 'trunc', 'byte', 'cat', 'bswap', 'sext'}
+TUPLE_INVERSES = {}   # multi-output opaque function 'fn:f' -> 'fn:g' with g(f(x_1..x_n)) = (x_1..x_n)  (proved lemma)
 
 _tab = {}
 _serial = {}
@@ -317,6 +320,10 @@ def _strip_amount(r, w):
 def op(name, w, *args):
     if any(a is None for a in args):
         return None
+    if BITCANON and name not in _STRUCTURAL and not (name in ('Shl', 'Shr', 'rotl', 'rotr') and args[1][0] == 'c') \
+            and not (name in ('BitAnd', 'BitOr') and (args[0][0] == 'c' or args[1][0] == 'c')):
+        import bitform
+        args = tuple(bitform.recanon(a) for a in args)
     if name == 'id':
         return args[0]
     if name == 'BitXor':
@@ -466,6 +473,21 @@ def op(name, w, *args):
     if inv is not None and len(args) == 2 and args[1][0] == inv and len(args[1]) == 4 and args[1][2] is args[0]:
         return args[1][3]          # f^-1(k, f(k, x)) = x for a declared inverse pair on the same key object
     return _i((name, w) + tuple(args))
+
+
+def tuple_fn(name, ws, args):
+    """outputs of the multi-output opaque function `name` (output k has width ws[k]) applied to args; a declared
+    inverse applied to all outputs, in order, of one application of its partner returns that application's arguments"""
+    if any(a is None for a in args):
+        return [None] * len(ws)
+    inv = TUPLE_INVERSES.get(name)
+    if inv is not None and len(args) == len(ws) and args:
+        a0 = args[0]
+        if a0[0] == inv + '#0' and len(a0) - 2 == len(ws) and all(
+                args[k][0] == '%s#%d' % (inv, k) and len(args[k]) == len(a0) and all(x is y for x, y in zip(args[k][2:], a0[2:]))
+                for k in range(len(args))):
+            return list(a0[2:])
+    return [op('%s#%d' % (name, k), ws[k], *args) for k in range(len(ws))]
 
 
 def _cuts(t):
